@@ -193,4 +193,54 @@ def run(chk, facts_dir, tier):
             chk.fail("R6.5", root, "index-without-bloom", "keys are added to the stream index without being added to its bloom filter: once the segment is sealed, lookups of these streams "
                      "are answered 'absent' by the filter although the index files are complete", b, adds[0]["line"])
     chk.floor("R6.5", n5, 1)
+
+    # ---------------- R6.6: the names the writer gives the segment's files are the names the reopen scan recognises
+    chk.rule("R6.6", "NAME TABLE AGREEMENT: every file name SegmentKind::file_name can return (the name get_path gives the writers and the index flush) is a name the "
+                     "directory scan of DatabaseBuilder::open recognises - compared there as a string constant (directly, through SegmentKind::parse_path, or by extension) "
+                     "or taken from SegmentKind::file_name itself; an unrecognised name is skipped by the scan, so the sealed segment is registered without that index and "
+                     "its events are silently missing from that kind of lookup")
+    FN, PP = "sierradb::bucket::SegmentKind::file_name", "sierradb::bucket::SegmentKind::parse_path"
+    fb = prog.body(FN)
+    chk.analysed(fb.path)
+
+    def str_consts(op):
+        c = (op.get("sv") or op.get("c")) if isinstance(op, dict) else None
+        if isinstance(c, str) and c.startswith("const "):
+            c = c[6:]
+        return c[1:-1] if isinstance(c, str) and len(c) >= 2 and c[0] == '"' and c[-1] == '"' and op.get("ty") == "&str" else None
+    written = {}
+    for bi, bl in enumerate(fb.blocks):
+        for st in bl["s"]:
+            rv = st.get("rv") or {}
+            if st.get("k") == "assign" and rv.get("k") == "use":
+                v = str_consts(rv["op"])
+                if v is not None:
+                    written[v] = st["line"]
+
+    def compared(bodies):
+        out = set()
+        for b in bodies:
+            for bi, t in b.calls():
+                c = (b.callee_decl(t) or "") + " " + str(t["f"].get("c"))
+                if "PartialEq" in c or c.rsplit("::", 1)[-1].split(" ")[0] in ("eq", "ne", "ends_with", "starts_with", "eq_ignore_ascii_case"):
+                    for a in t["args"]:
+                        v = str_consts(a)
+                        if v is not None:
+                            out.add(v)
+        return out
+    recognised = compared(fam)
+    uses = {c for b in fam for bi, t in b.calls() for c in [b.callee(t) or b.callee_decl(t) or ""] if c in (FN, PP)}
+    if PP in uses:
+        recognised |= compared(prog.family(PP))
+    by_table = FN in uses
+    if not recognised and not by_table:
+        raise Inconclusive("DatabaseBuilder::open: the directory scan compares no file-name constants and does not use SegmentKind::file_name / parse_path")
+    for w, line in sorted(written.items()):
+        ok6 = by_table or any(w == c or w.endswith("." + c.lstrip(".")) for c in recognised)
+        if ok6:
+            chk.ok("R6.6", "`%s` is recognised by the reopen scan" % w, fb.where(line))
+        else:
+            chk.fail("R6.6", FN, "name-not-recognised:" + w.rsplit(".", 1)[-1], "SegmentKind::file_name returns `%s`, which the directory scan of DatabaseBuilder::open does not recognise (it knows %s): "
+                     "after a restart the file is skipped and the sealed segment is registered without it" % (w, sorted(recognised)), fb, line)
+    chk.floor("R6.6", len(written), 4)
     return {}
